@@ -164,7 +164,13 @@ def check_case(case):
             if pi % 3 == 2:
                 # exercise the range_defns setter: build with another order, then assign
                 obj = create_Multi_Range_Potential_Form(*reversed(defs))
-                obj.range_defns = defs
+                # ... from a list, a tuple or a one-shot iterable (generator, reversed(), iter()): any iterable of
+                # range definitions is a set of ranges
+                how = (pi // 3) % 5
+                obj.range_defns = [defs, tuple(defs), (d for d in defs), reversed(list(reversed(defs))), iter(defs)][how]
+                tag = "setter:" + ["list", "tuple", "generator", "reversed", "iter"][how]
+                if tag not in cls:
+                    cls.append(tag)
             else:
                 obj = create_Multi_Range_Potential_Form(*defs)
             want_cls = (mrpf.Multi_Range_Potential_Form_Deriv2 if any_d2 else
